@@ -597,6 +597,14 @@ func (c *Ctx) checkSizeQuery(q *ssa.Function, reach map[*ssa.Function]bool) {
 							tsize = true
 						}
 					}
+					// a repository helper that cannot reach a load and consults Tsize / BlockSizes
+					if h := x.Call.StaticCallee(); h != nil && !loadReaching[ins] {
+						if _, isRepo := c.P.PkgOf(h); isRepo {
+							t2, b2 := c.mentionsDeclaredSizes(h, reach, 0)
+							tsize = tsize || t2
+							bsizes = bsizes || b2
+						}
+					}
 					if strings.Contains(c.accessPath(x, 0), "BlockSizes") {
 						bsizes = true
 					}
@@ -749,4 +757,40 @@ func (c *Ctx) checkSingleDescent(fetch map[*ssa.Function]bool) {
 		r.Check(path == nil, "R5.7", key, c.P.Pos(fn.Pos()), "cannot reach a function that loads shards in a loop", "a lookup/loader can reach a subtree walk: "+core.PathString(path)+" — looking up one name would fetch a whole subtree")
 	}
 	r.Floor("R5.7", n, 5)
+}
+
+// mentionsDeclaredSizes: the (load-free) helper reads the link's "Tsize" / the node's BlockSizes.
+func (c *Ctx) mentionsDeclaredSizes(h *ssa.Function, reach map[*ssa.Function]bool, depth int) (tsize, bsizes bool) {
+	if depth > 2 || reach[h] {
+		return false, false
+	}
+	for _, b := range h.Blocks {
+		for _, ins := range b.Instrs {
+			switch x := ins.(type) {
+			case *ssa.Call:
+				for _, a := range x.Call.Args {
+					if k, ok := a.(*ssa.Const); ok && k.Value != nil && k.Value.Kind() == constant.String && constant.StringVal(k.Value) == "Tsize" {
+						tsize = true
+					}
+					if strings.Contains(c.accessPath(a, 0), "BlockSizes") {
+						bsizes = true
+					}
+				}
+				if strings.Contains(c.accessPath(x, 0), "BlockSizes") {
+					bsizes = true
+				}
+				if g := x.Call.StaticCallee(); g != nil {
+					if _, isRepo := c.P.PkgOf(g); isRepo && !c.P.IsGenerated(g.Pos()) {
+						t2, b2 := c.mentionsDeclaredSizes(g, reach, depth+1)
+						tsize, bsizes = tsize || t2, bsizes || b2
+					}
+				}
+			case *ssa.FieldAddr:
+				if _, fv, ok := core.FieldAddrOf(x); ok && fv.Name() == "BlockSizes" {
+					bsizes = true
+				}
+			}
+		}
+	}
+	return
 }
